@@ -239,6 +239,14 @@ func TestXportStream(t *testing.T) {
 				}
 			}
 			for i, fr := range frames { // one frame per datagram, paced by its delivery
+				if i%7 == 3 { // a datagram that is no whole block (cut short, or garbage): it is dropped on its own, what follows is untouched
+					junk := fr[:min(len(fr)-1, 10)]
+					if i%2 == 0 {
+						junk = []byte{0xFF, 0xFF, 0xFF}
+					}
+					x.upc.WriteTo(junk, to)
+					time.Sleep(2 * time.Millisecond)
+				}
 				x.upc.WriteTo(fr, to)
 				if !rec.waitFor(base+i+1, 10*time.Second) {
 					stalled = i
